@@ -281,6 +281,8 @@ class PassData(MutableMapping[str, Any]):
             self._error = copy.deepcopy(other._error)
             self._model = copy.deepcopy(other._model)
             self._placement = copy.deepcopy(other._placement)
+            self._initial_mapping = copy.deepcopy(other._initial_mapping)
+            self._final_mapping = copy.deepcopy(other._final_mapping)
             self._data = copy.deepcopy(other._data)
             self._seed = copy.deepcopy(other._seed)
         else:
@@ -288,6 +290,8 @@ class PassData(MutableMapping[str, Any]):
             self._error = copy.copy(other._error)
             self._model = copy.copy(other._model)
             self._placement = copy.copy(other._placement)
+            self._initial_mapping = copy.copy(other._initial_mapping)
+            self._final_mapping = copy.copy(other._final_mapping)
             self._data = copy.copy(other._data)
             self._seed = copy.copy(other._seed)
 
